@@ -218,10 +218,15 @@ func (g *Gen) WireEdit(p int, w *refcbor.Node) string {
 			switch v.K {
 			case refcbor.Uint, refcbor.Nint, refcbor.Bytes, refcbor.Text, refcbor.Array:
 				v.ArgW = []int{1, 2, 4, 8}[g.R.Intn(4)]
-				if v.K == refcbor.Uint || v.K == refcbor.Nint {
-					for !fitsW(v.U, v.ArgW) {
-						v.ArgW *= 2
-					}
+				arg := v.U
+				switch v.K {
+				case refcbor.Bytes, refcbor.Text:
+					arg = uint64(len(v.B))
+				case refcbor.Array:
+					arg = uint64(len(v.Items))
+				}
+				for !fitsW(arg, v.ArgW) {
+					v.ArgW *= 2
 				}
 				return "non-minimal"
 			}
